@@ -82,6 +82,11 @@ static void blt_case (vf_rng *r)
     free (model); vf_buf_free (&s); vf_buf_free (&d);
 }
 
+static uint32_t pt_read (const void *src, int size)
+{ switch (size) { case 1: return *(const uint8_t *)src; case 2: { uint16_t v; memcpy (&v, src, 2); return v; } default: { uint32_t v; memcpy (&v, src, 4); return v; } } }
+static void pt_write (void *dst, uint32_t value, int size)
+{ switch (size) { case 1: *(uint8_t *)dst = (uint8_t)value; break; case 2: { uint16_t v = (uint16_t)value; memcpy (dst, &v, 2); break; } default: memcpy (dst, &value, 4); break; } }
+
 /* fill_boxes / fill_rectangles vs compositing a solid */
 static void boxes_case (vf_rng *r)
 {
@@ -100,6 +105,21 @@ static void boxes_case (vf_rng *r)
     vf_rng r1 = *r, r2 = *r;
     if (!rq_build (&q1, &r1)) return;
     if (!rq_build (&q2, &r2)) { rq_free (&q1); return; }
+    /* a destination that was already in use (drawn to, hence validated) BEFORE its alpha map / accessors / clip were attached: the fill entry points must
+     * see the current properties, as compositing does */
+    int late = 0;
+    if ((D.alpha_map || D.accessors || D.n_clip) && q1.dst.img && vf_chance (r, 1, 2)) {
+        late = 1;
+        if (D.alpha_map && q1.dst.amap) pixman_image_set_alpha_map (q1.dst.img, NULL, 0, 0);
+        if (D.accessors) pixman_image_set_accessors (q1.dst.img, NULL, NULL);
+        if (D.n_clip) pixman_image_set_clip_region32 (q1.dst.img, NULL);
+        pixman_image_composite32 (PIXMAN_OP_OVER, q1.src.img, NULL, q1.dst.img, 0, 0, 0, 0, 0, 0, 0, 0);        /* an empty request: nothing is drawn */
+        if (vf_chance (r, 1, 2)) pixman_image_fill_boxes (PIXMAN_OP_SRC, q1.dst.img, &c, 0, NULL);
+        if (D.alpha_map && q1.dst.amap) pixman_image_set_alpha_map (q1.dst.img, q1.dst.amap, (int16_t)D.am_x, (int16_t)D.am_y);
+        if (D.accessors && PIXMAN_FORMAT_BPP (D.fmt) <= 32) pixman_image_set_accessors (q1.dst.img, pt_read, pt_write);
+        if (D.n_clip) { pixman_region32_t reg; pixman_region32_init_rects (&reg, D.clip, D.n_clip); pixman_image_set_clip_region32 (q1.dst.img, &reg); pixman_region32_fini (&reg); }
+        vf_count ("properties_attached_after_first_use", 1);
+    }
     static const pixman_op_t common[] = { PIXMAN_OP_SRC, PIXMAN_OP_SRC, PIXMAN_OP_OVER, PIXMAN_OP_OVER, PIXMAN_OP_CLEAR, PIXMAN_OP_ADD };
     pixman_op_t op = vf_chance (r, 1, 2) ? VF_PICK (r, common) : ro_ops[vf_next (r) % ro_nops];
     int n = (int)vf_range (r, 0, 10);
@@ -115,6 +135,7 @@ static void boxes_case (vf_rng *r)
     }
     static char desc[900]; int k = snprintf (desc, sizeof desc, "%s op=%s color=(a%04x r%04x g%04x b%04x) dst=%s %dx%d clip=%d%s%s boxes=", use_rects ? "fill_rectangles" : "fill_boxes", ro_op_name (op), c.alpha, c.red, c.green, c.blue,
                            rp_name (D.fmt), D.w, D.h, D.n_clip, D.alpha_map ? " alphamap" : "", D.accessors ? " accessors" : "");
+    if (late) k += snprintf (desc + k, sizeof desc - k, "(attached after the destination had been used) ");
     for (int i = 0; i < n && k < 800; i++) k += snprintf (desc + k, sizeof desc - k, "[%d,%d %dx%d]", bx[i].x1, bx[i].y1, bx[i].x2 - bx[i].x1, bx[i].y2 - bx[i].y1);
     snprintf (desc + k, sizeof desc - k, " chain='%s'", vf_chain_env ());
     vf_case_desc ("%s", desc); vf_inflight ("%s", desc);
